@@ -100,6 +100,25 @@ PROPS = {
                  "answered out of order; distinct by case hash."),
         "assumptions": ["type-confused responses (right id, wrong type) belong to C12", "a caller cancelled while its answer is in flight may return either its context error or its own response"],
     },
+    "C08": {
+        "level": "fault_enumeration",
+        "groups": [g("main", "c08", q=16, t=32, run="^Test(Regress|Enumerate|Prop)$", gomaxprocs=[4, 2, 4, 16])],
+        "parallel": 16,
+        "timeout": {"quick": 600, "thorough": 3000},
+        "rule": ("enumerated: 10 API scenario templates (reliable/unreliable upstream open-write-flush-close, downstream open-read-readmeta-close, metadata, "
+                 "call / call-and-wait / reply-call / receive, connection close with streams left open, and parallel pairs) x every client message "
+                 "position of a reference run (connect request exempt) x 16 broker behaviours {answer, delay, drop, sever before/after, inject a "
+                 "response with an unknown request id / chunk ack for an unknown upstream alias / chunk for an unknown downstream alias / metadata "
+                 "for an unsubscribed source node / ack or reply for a foreign call id (with or instead of the proper answer), withhold all chunk "
+                 "acks from here on}; plus random (template, position, behaviour, deadlines 50-300 ms, close timeout 50-200 ms, ack timeout 0/50 ms, "
+                 "codec) and, in thorough, pairs of faults. Oracle: every call returns within context+close timeout+keepalive+2 s (10 s = hang); "
+                 "afterwards a cooperative broker's probe (open/write/flush/close upstream, open/read/close downstream, metadata, call) succeeds; "
+                 "every mutex named in the lock-probe hook can be taken at quiescence. Non-trivial = a behaviour other than 'answer' that fired; "
+                 "distinct by case."),
+        "assumptions": ["dropping the connect response is exempt (Connect has no bound to appeal to); disconnect during the handshake is covered",
+                        "the lock probe sees the mutexes named in the verif hook (connection, wire connection tables, stream state), not every lock of the library",
+                        "the path-complete static lock-release lemma of the statement is not claimed (DESIGN.md section 5)"],
+    },
     "C11": {
         "level": "exploration",
         "groups": [g("main", "c11", q=4, t=16, run="^Test(SelfRegistry|Grid|EnumTotality|Random|TransportCounters)$")],
